@@ -62,24 +62,24 @@ def run(rep: Report, ctx: Any) -> str:
                        "and returns another, no filtered copy, no removal; from_dict does not re-bind or prune its document parameter")
 
     # ---- R07.1 -------------------------------------------------------------------------------------------------------
-    returns_err = set()
+    returns_err: dict[str, list[Any]] = {}
     for f in ix.all_functions:
         ann = norm(f.node.returns) if f.node.returns is not None else ""
         if any(e in ann for e in ERROR_CLASSES):
-            returns_err.add(f.name)
+            returns_err.setdefault(f.name, []).append(f)
     rep.floor("functions_returning_errors", len(returns_err), 20)
     n_calls = 0
     for f in ix.all_functions:
         for st in ast.walk(f.node):
             if isinstance(st, ast.Expr) and isinstance(st.value, ast.Call):
                 cn = call_name(st.value).rsplit(".", 1)[-1]
-                if cn in returns_err and cn not in ("append", "extend"):
+                if cn not in ("append", "extend") and _may_denote(ix, f, st.value, returns_err.get(cn, [])):
                     n_calls += 1
                     rep.fail("R07.1", f"{short(f)}::discarded {cn}()", f"the result of `{norm(st.value)[:60]}` (may be an error) is discarded",
                              where(f, st))
             if isinstance(st, ast.Assign) and isinstance(st.value, ast.Call):
                 cn = call_name(st.value).rsplit(".", 1)[-1]
-                if cn not in returns_err:
+                if not _may_denote(ix, f, st.value, returns_err.get(cn, [])):
                     continue
                 n_calls += 1
                 names = [t.id for t in st.targets if isinstance(t, ast.Name)]
@@ -333,9 +333,9 @@ def run(rep: Report, ctx: Any) -> str:
     tags_assign = [n for n in ast.walk(fd.node) if isinstance(n, ast.Assign) and norm(n.targets[0]) == tagv]
     rep.require(tags_assign, "tags assignment in from_data")
     first = tags_assign[0]
-    ok = _nonempty(first.value)
+    ok = _nonempty(first.value, None, ix, fd)
     for a in tags_assign[1:]:
-        ok = ok and _nonempty(a.value, {tagv})
+        ok = ok and _nonempty(a.value, {tagv}, ix, fd)
     rep.check(ok, "R07.6", "EndpointCollection.from_data::tags-non-empty",
               "the list of tags of an operation can be empty (e.g. `tags: []`): the operation is attached to no collection and vanishes "
               "with its diagnostics", where(fd, first), lhs=[norm(a.value)[:70] for a in tags_assign], rhs="provably non-empty")
@@ -372,21 +372,99 @@ def run(rep: Report, ctx: Any) -> str:
     # method list exhaustive
     pi = ix.cls("PathItem")
     ops = sorted(f_ for f_, ann in ix.all_fields(pi).items() if ann is not None and "Operation" in norm(ann))
-    meth = None
-    dl = Locals(fd.node)
-    for lp in ast.walk(fd.node):
-        # the method loop: its variable is the attribute name read from the path item with getattr
-        if isinstance(lp, ast.For) and isinstance(lp.target, ast.Name) and any(
-                isinstance(c, ast.Call) and call_name(c) == "getattr" and len(c.args) >= 2 and norm(c.args[1]) == lp.target.id for c in ast.walk(lp)):
-            for v in ([lp.iter] if not isinstance(lp.iter, ast.Name) else dl.values_of(lp.iter.id)):
+    # the method loop (in from_data or in a private helper it delegates the enumeration to): its variable is the attribute name read
+    # from the path item with getattr; what it goes through is a literal, a local or a constant of the module bound to one
+    meths: list["list[str] | None"] = []
+    for g in region(ix, fd):
+        gl = Locals(g.node)
+        for lp in _method_loops(g):
+            vals = [lp.iter] if not isinstance(lp.iter, ast.Name) else (gl.values_of(lp.iter.id) or [g.module.variables.get(lp.iter.id)])
+            for v in vals:
                 try:
-                    meth = sorted(ast.literal_eval(v))
+                    meths.append(sorted(ast.literal_eval(v)))
                 except Exception:  # noqa: BLE001
-                    meth = None
+                    meths.append(None)
+    meth = next((m for m in meths if m != ops), ops) if meths else None
     rep.check(meth == ops, "R07.6", "EndpointCollection.from_data::methods-exhaustive",
               f"the method list {meth} differs from the Operation fields of PathItem {ops}", where(fd, fd.node), lhs=meth, rhs=ops)
     rep.not_decided.append("the census itself; response media types other than the first supported one are ignored by design")
     return LEVEL
+
+
+# ---- which function a call denotes ------------------------------------------------------------------------------------------------------
+_BUILTIN_CONTAINERS = {"set", "frozenset", "dict", "list", "tuple", "str", "bytes", "Set", "FrozenSet", "Dict", "List", "Tuple", "Sequence",
+                       "Mapping", "MutableMapping", "MutableSet", "MutableSequence", "Iterable", "Iterator", "defaultdict", "OrderedDict",
+                       "Counter", "deque"}
+
+
+def _builtin_annotation(ann: "ast.AST | None") -> bool:
+    """the annotation names nothing but built-in containers / strings (Optional[...] and unions of such alike): whatever the value
+    is, it is not an instance of a class of the repository"""
+    if ann is None:
+        return False
+    if isinstance(ann, ast.Constant) and isinstance(ann.value, str):
+        try:
+            ann = ast.parse(ann.value, mode="eval").body
+        except SyntaxError:
+            return False
+    if isinstance(ann, ast.Constant) and ann.value is None:
+        return True
+    if isinstance(ann, ast.BinOp) and isinstance(ann.op, ast.BitOr):
+        return _builtin_annotation(ann.left) and _builtin_annotation(ann.right)
+    if isinstance(ann, ast.Subscript):
+        head = norm(ann.value).rsplit(".", 1)[-1]
+        if head in ("Optional", "Union"):
+            parts = ann.slice.elts if isinstance(ann.slice, ast.Tuple) else [ann.slice]
+            return all(_builtin_annotation(p_) for p_ in parts)
+        return head in _BUILTIN_CONTAINERS
+    return isinstance(ann, (ast.Name, ast.Attribute)) and norm(ann).rsplit(".", 1)[-1] in _BUILTIN_CONTAINERS
+
+
+def _builtin_value(ix: Any, f: Any, e: ast.AST, depth: int = 3) -> bool:
+    """the value of e is known to be a built-in container: a display, a comprehension, the result of a built-in constructor or of a
+    function of the repository declared to return one, a parameter / local declared as one, a local bound to nothing but such values"""
+    if depth <= 0:
+        return False
+    if isinstance(e, (ast.Set, ast.Dict, ast.List, ast.Tuple, ast.ListComp, ast.SetComp, ast.DictComp, ast.JoinedStr)):
+        return True
+    if isinstance(e, ast.Call):
+        if isinstance(e.func, ast.Name) and e.func.id in _BUILTIN_CONTAINERS:
+            return True
+        last = call_name(e).rsplit(".", 1)[-1]
+        called = [g for g in ix.all_functions if g.name == last]
+        return bool(called) and all(_builtin_annotation(g.node.returns) for g in called)
+    if isinstance(e, ast.BoolOp):
+        return all(_builtin_value(ix, f, v, depth) for v in e.values)
+    if isinstance(e, ast.IfExp):
+        return _builtin_value(ix, f, e.body, depth) and _builtin_value(ix, f, e.orelse, depth)
+    if isinstance(e, ast.Name):
+        for x in f.params:
+            if x.arg == e.id:
+                return _builtin_annotation(x.annotation)
+        anns = [n.annotation for n in _own_walk(f.node) if isinstance(n, ast.AnnAssign) and isinstance(n.target, ast.Name) and n.target.id == e.id]
+        if anns:
+            return all(_builtin_annotation(a_) for a_ in anns)
+        ds = Locals(f.node).defs.get(e.id, [])
+        return bool(ds) and all(k == "assign" and v is not None and _builtin_value(ix, f, v, depth - 1) for k, _, v in ds)
+    return False
+
+
+def _may_denote(ix: Any, f: Any, call: ast.Call, cands: list[Any]) -> bool:
+    """the call can be a call of one of `cands` (functions of one name).  A function or a closure is called by its name; a method is
+    called on a receiver, and the call is one of C.m only if the receiver can be an instance of C: `K.m(...)` on another class K of
+    the repository, or `seen.m(x)` on a receiver known to be a built-in container (declared so, bound to a display / a built-in
+    constructor / the result of a function declared to return one), calls something else.  A receiver about which nothing, or not
+    everything, is known counts as a call."""
+    if not cands:
+        return False
+    if not isinstance(call.func, ast.Attribute) or any(g.cls is None for g in cands):
+        return True  # by name; module.function(...)
+    recv = call.func.value
+    classes = {k.name: k for k in ix.classes.values()}
+    head = dotted_name(recv)
+    if head in classes:
+        return any(g.cls in ix.mro(classes[head]) for g in cands)
+    return not _builtin_value(ix, f, recv)
 
 
 # ---- what a function returns, through the private helpers whose result it returns ----------------------------------------------------
@@ -846,14 +924,22 @@ def _unlabelled_errors(ix: Any, f: Any, need: list[set[str]], cfgs: dict[str, CF
     return bad, n
 
 
-def _unlabelled_endpoint_errors(ix: Any, fd: Any, cfgs: dict[str, CFG]) -> tuple[list[str], int]:
-    """(errors attached to a collection's parse_errors whose header was not computed from the method and the path, number of attachments).
-    Method and path are found by role: the path is the key the loop over the path items yields, the method is the loop variable that
-    selects the operation from the path item (getattr)."""
-    T = _DocTypes(ix, fd)
+def _method_loops(f: Any) -> list[ast.For]:
+    """the loops of f whose variable selects the operation from the path item: the attribute name handed to getattr"""
+    return [lp for lp in _own_walk(f.node) if isinstance(lp, ast.For) and isinstance(lp.target, ast.Name) and any(
+        isinstance(c, ast.Call) and call_name(c) == "getattr" and len(c.args) >= 2 and norm(c.args[1]) == lp.target.id for c in ast.walk(lp))]
+
+
+def _operation_roles(ix: Any, f: Any, depth: int = 2) -> tuple[set[str], set[str]]:
+    """(names of f that hold the path, names of f that hold the method) of the operation an iteration is about.  The path is the key
+    the loop over the path items yields, the method is the loop variable that selects the operation from the path item (getattr).
+    A loop over what a private generator helper yields goes through the same operations: the position at which every `yield` of the
+    helper hands on its own path / method is where the loop receives them."""
+    T = _DocTypes(ix, f)
     path_names: set[str] = set()
-    method_names: set[str] = set()
-    for lp in _own_walk(fd.node):
+    method_names: set[str] = {lp.target.id for lp in _method_loops(f)}
+    helpers = {g.name: g for g in region(ix, f, depth=1) if g is not f} if depth > 0 else {}
+    for lp in _own_walk(f.node):
         if not isinstance(lp, ast.For):
             continue
         if "PathItem" in T.of(lp.iter):
@@ -862,9 +948,36 @@ def _unlabelled_endpoint_errors(ix: Any, fd: Any, cfgs: dict[str, CFG]) -> tuple
                 path_names |= _targets(lp.target.elts[0])
             elif isinstance(lp.target, ast.Name) and not (isinstance(lp.iter, ast.Call) and isinstance(lp.iter.func, ast.Attribute) and lp.iter.func.attr == "values"):
                 path_names.add(lp.target.id)
-        if isinstance(lp.target, ast.Name) and any(isinstance(c, ast.Call) and call_name(c) == "getattr" and len(c.args) >= 2 and
-                                                   norm(c.args[1]) == lp.target.id for c in ast.walk(lp)):
-            method_names.add(lp.target.id)
+        it = lp.iter
+        while isinstance(it, ast.Call) and call_name(it) in _ELEMENTWISE - {"enumerate"} and len(it.args) == 1:
+            it = it.args[0]
+        g = helpers.get(call_name(it).rsplit(".", 1)[-1]) if isinstance(it, ast.Call) else None
+        if g is None:
+            continue
+        yields = [y.value for y in _own_walk(g.node) if isinstance(y, ast.Yield)]
+        if not yields or any(isinstance(y, ast.YieldFrom) for y in _own_walk(g.node)):
+            continue
+        gp, gm = _operation_roles(ix, g, depth - 1)
+        if isinstance(lp.target, ast.Tuple) and all(isinstance(y, ast.Tuple) and len(y.elts) == len(lp.target.elts) for y in yields):
+            for i, t in enumerate(lp.target.elts):
+                if isinstance(t, ast.Name):
+                    if all(isinstance(y.elts[i], ast.Name) and y.elts[i].id in gp for y in yields):
+                        path_names.add(t.id)
+                    if all(isinstance(y.elts[i], ast.Name) and y.elts[i].id in gm for y in yields):
+                        method_names.add(t.id)
+        elif isinstance(lp.target, ast.Name):
+            if all(isinstance(y, ast.Name) and y.id in gp for y in yields):
+                path_names.add(lp.target.id)
+            if all(isinstance(y, ast.Name) and y.id in gm for y in yields):
+                method_names.add(lp.target.id)
+    return path_names, method_names
+
+
+def _unlabelled_endpoint_errors(ix: Any, fd: Any, cfgs: dict[str, CFG]) -> tuple[list[str], int]:
+    """(errors attached to a collection's parse_errors whose header was not computed from the method and the path, number of attachments).
+    Method and path are found by role: the path is the key the loop over the path items yields, the method is the loop variable that
+    selects the operation from the path item (getattr)."""
+    path_names, method_names = _operation_roles(ix, fd)
 
     def labelled(v: ast.AST) -> bool:
         behind = _text_sources(v, fd.node)
@@ -1330,6 +1443,31 @@ def document_loops(ix: Any) -> dict[Any, dict[ast.For, str]]:
     return out
 
 
+def _error_class_names(f: Any) -> set[str]:
+    """parameters of f that hold an error class: declared `type[E]` / `Type[E]` with E one of the error classes, or a type variable
+    of the module whose bound is one"""
+    out: set[str] = set()
+    for x in f.params:
+        ann = x.annotation
+        if isinstance(ann, ast.Constant) and isinstance(ann.value, str):
+            try:
+                ann = ast.parse(ann.value, mode="eval").body
+            except SyntaxError:
+                continue
+        if not (isinstance(ann, ast.Subscript) and norm(ann.value).rsplit(".", 1)[-1] in ("type", "Type")):
+            continue
+        e = ann.slice
+        if isinstance(e, ast.Name) and e.id in f.module.variables:
+            tv = f.module.variables[e.id]
+            if isinstance(tv, ast.Call) and call_name(tv).rsplit(".", 1)[-1] == "TypeVar":
+                e = next((k.value for k in tv.keywords if k.arg == "bound"), e)
+                if isinstance(e, ast.Constant) and isinstance(e.value, str):
+                    e = ast.Name(id=e.value.rsplit(".", 1)[-1], ctx=ast.Load())
+        if (dotted_name(e) or "").rsplit(".", 1)[-1] in ERROR_CLASSES:
+            out.add(x.arg)
+    return out
+
+
 def _is_error_type(t: ast.AST) -> bool:
     parts = t.elts if isinstance(t, ast.Tuple) else [t]
     return bool(parts) and all((dotted_name(x) or "").rsplit(".", 1)[-1] in ERROR_CLASSES for x in parts)
@@ -1421,6 +1559,11 @@ class _Iteration:
         self.loops = loops
         self.errs = error_names(f.node)
         self.lc = Locals(f.node)
+        # names that denote an error class: parameters declared `type[E]`, E an error class or a type variable bound to one -
+        # calling such a name constructs an error, isinstance(x, <such a name>) asks whether x is one
+        self.err_classes = _error_class_names(f)
+        self.errs |= {n.args[0].id for n in _own_walk(f.node) if isinstance(n, ast.Call) and call_name(n) == "isinstance" and len(n.args) == 2
+                      and isinstance(n.args[0], ast.Name) and isinstance(n.args[1], ast.Name) and n.args[1].id in self.err_classes}
         # collections an item is recorded into, one record each: a local bound to a comprehension of setdefault(...) results
         self.fan_out = set(self.lc.bound_from(lambda v: ".setdefault(" in v and v.startswith("["), "assign"))
         self.ends: dict[int, tuple[ast.AST, set[_S]]] = {}
@@ -1583,6 +1726,8 @@ class _Iteration:
     def _is_error_value(self, e: ast.AST, s: _S) -> bool:
         if constructs_error(e):
             return True
+        if isinstance(e, ast.Call) and isinstance(e.func, ast.Name) and e.func.id in self.err_classes:
+            return True
         if isinstance(e, ast.Call):
             # the result of a private helper that returns nothing but errors it builds, whether or not its signature says so
             g = self.helpers.get(call_name(e).rsplit(".", 1)[-1])
@@ -1684,7 +1829,7 @@ class _Iteration:
         if isinstance(test, ast.Call) and call_name(test) == "isinstance" and len(test.args) == 2 and isinstance(test.args[0], ast.Name):
             n = test.args[0].id
             parts = test.args[1].elts if isinstance(test.args[1], ast.Tuple) else [test.args[1]]
-            is_err = [(dotted_name(x) or "").rsplit(".", 1)[-1] in ERROR_CLASSES for x in parts]
+            is_err = [(dotted_name(x) or "").rsplit(".", 1)[-1] in ERROR_CLASSES or (isinstance(x, ast.Name) and x.id in self.err_classes) for x in parts]
             if all(is_err):
                 if want:
                     if n in s.ok or n in s.none:
@@ -1721,18 +1866,45 @@ def _innermost_if(loop: ast.AST, st: ast.AST) -> ast.If | None:
     return best
 
 
-def _nonempty(e: ast.expr, known: set[str] | None = None) -> bool:
+def _nonempty(e: ast.expr, known: set[str] | None = None, ix: Any = None, f: Any = None, depth: int = 3) -> bool:
+    """the list e is provably non-empty: a non-empty display, `X or <non-empty>`, an unfiltered comprehension over a non-empty list,
+    a prefix `X[:n]` (n >= 1) of a non-empty list, either arm of a conditional expression, a name in `known`; and - inside a private
+    helper f delegates to (ix, f given) - a local all of whose bindings are non-empty, and the result of such a helper when every
+    `return` of it is"""
     known = known or set()
     if isinstance(e, (ast.List, ast.Tuple)):
         return len(e.elts) > 0
     if isinstance(e, ast.BoolOp) and isinstance(e.op, ast.Or):
-        return _nonempty(e.values[-1], known)
+        return _nonempty(e.values[-1], known, ix, f, depth)
+    if isinstance(e, ast.IfExp):
+        return _nonempty(e.body, known, ix, f, depth) and _nonempty(e.orelse, known, ix, f, depth)
     if isinstance(e, ast.ListComp):
-        return len(e.generators) == 1 and not e.generators[0].ifs and _nonempty(e.generators[0].iter, known)
+        return len(e.generators) == 1 and not e.generators[0].ifs and _nonempty(e.generators[0].iter, known, ix, f, depth)
     if isinstance(e, ast.Name):
         return e.id in known
     if isinstance(e, ast.Subscript) and isinstance(e.slice, ast.Slice):
         up = e.slice.upper
         lo = e.slice.lower
-        return _nonempty(e.value, known) and lo is None and isinstance(up, ast.Constant) and isinstance(up.value, int) and up.value >= 1
+        return _nonempty(e.value, known, ix, f, depth) and lo is None and isinstance(up, ast.Constant) and isinstance(up.value, int) and up.value >= 1
+    if isinstance(e, ast.Call) and ix is not None and f is not None and depth > 0:
+        g = {h.name: h for h in region(ix, f, depth=1) if h is not f}.get(call_name(e).rsplit(".", 1)[-1])
+        if g is None or any(isinstance(y, (ast.Yield, ast.YieldFrom)) for y in _own_walk(g.node)):
+            return False
+        rets = [r for r in _own_walk(g.node) if isinstance(r, ast.Return)]
+        return bool(rets) and all(r.value is not None and _nonempty(r.value, _nonempty_locals(ix, g, depth - 1), ix, g, depth - 1) for r in rets)
     return False
+
+
+def _nonempty_locals(ix: Any, g: Any, depth: int) -> set[str]:
+    """the locals of g that hold a non-empty list whenever they are bound: every binding is an assignment of a non-empty list, at
+    least one of them not computed from the name itself (`xs = xs[:1]` keeps what `xs = [..]` established)"""
+    lc = Locals(g.node)
+    out: set[str] = set()
+    for name, ds in lc.defs.items():
+        if not ds or any(k != "assign" or v is None for k, _, v in ds):
+            continue
+        base = [v for _, _, v in ds if name not in names_in(v)]
+        rest = [v for _, _, v in ds if name in names_in(v)]
+        if base and all(_nonempty(v, set(), ix, g, depth) for v in base) and all(_nonempty(v, {name}, ix, g, depth) for v in rest):
+            out.add(name)
+    return out
